@@ -319,7 +319,41 @@ func runConstIndex(c *core.Ctx) []core.Obligation {
 					continue
 				}
 				k, isK := constInt(ia.Index)
-				if !isK || !isResliced(ia.X) {
+				if !isK {
+					continue
+				}
+				// a field re-loaded after this block advanced it (t.json = t.json[1:]; … t.json[0]):
+				// nothing that was known about the old value holds for the new one
+				advanced := false
+				if ld, isLd := ia.X.(*ssa.UnOp); isLd && ld.Op == token.MUL {
+					if fa, isFA := ld.X.(*ssa.FieldAddr); isFA {
+						seenLoad := false
+						for i := len(blk.Instrs) - 1; i >= 0; i-- {
+							if blk.Instrs[i] == ssa.Instruction(ld) {
+								seenLoad = true
+								continue
+							}
+							if !seenLoad {
+								continue
+							}
+							st, isSt := blk.Instrs[i].(*ssa.Store)
+							if !isSt {
+								continue
+							}
+							fa2, isFA2 := st.Addr.(*ssa.FieldAddr)
+							if !isFA2 || fa2.X != fa.X || fa2.Field != fa.Field {
+								continue
+							}
+							if sl, isSl := st.Val.(*ssa.Slice); isSl && sl.Low != nil {
+								if lk, isLK := constInt(sl.Low); !isLK || lk > 0 {
+									advanced = true
+								}
+							}
+							break
+						}
+					}
+				}
+				if !advanced && !isResliced(ia.X) {
 					continue
 				}
 				kn[k]++
